@@ -4,7 +4,7 @@
 class Contract:
     def __init__(self, qual, params=None, returns=None, requires=None, ensures=None, raises=None,
                  noraise=False, modifies=None, invariants=None, inline=False, virtual=False, trusted=False,
-                 aux=None, loop_mod=None, decreases=None, cinv=None, pure=False, note="", props=(), assumes=None):
+                 aux=None, loop_mod=None, decreases=None, cinv=None, pure=False, note="", props=(), assumes=None, defs=None, base=None):
         self.qual = qual
         self.params = params or {}          # name -> type tag (a precondition and a hint)
         self.returns = returns              # type tag of the result (assumed at call sites, proved in body)
@@ -24,6 +24,8 @@ class Contract:
         self.pure = pure
         self.note = note
         self.props = tuple(props)
+        self.defs = defs or {}         # local definitions of spec functions: name -> (params, expr), used only when verifying this body
+        self.base = base               # virtual contract this one refines
         self.assumes = assumes or {}   # stated assumptions: assumed on entry, NOT checked at call sites (listed in evidence)
 
     @property
@@ -52,6 +54,21 @@ class Registry:
 
     def contract(self, qual, **kw):
         c = Contract(qual, **kw)
+        self.contracts[qual] = c
+        return c
+
+    def refine(self, qual, base, defs=None, **kw):
+        """contract of an override: the clauses of the virtual contract `base` (callers rely on those),
+        proved for this body under the class-specific definitions `defs` of the spec functions"""
+        b = self.contracts[base]
+        c = Contract(qual, params=dict(b.params), returns=b.returns, requires=dict(b.requires), ensures=dict(b.ensures),
+                     raises=dict(b.raises), noraise=b.noraise, modifies=list(b.modifies), defs=defs, base=base,
+                     assumes=dict(b.assumes))
+        for k, v in kw.items():
+            if isinstance(v, dict) and isinstance(getattr(c, k), dict):
+                getattr(c, k).update(v)
+            else:
+                setattr(c, k, v)
         self.contracts[qual] = c
         return c
 
